@@ -855,6 +855,15 @@ pub fn programs(tier: Tier) -> Vec<(String, Vec<Stmt>)> {
                 prog.push(s1.clone());
                 out.push((format!("export-product/1/{kind}"), prog));
             }
+            // the same single export where local names coincide with export names of the target
+            {
+                let mut prog = pre.clone();
+                prog.push(Stmt::Let("t".into(), Expr::New("t:target".into(), rest.clone())));
+                prog.push(Stmt::Let("run".into(), id("px")));
+                prog.push(Stmt::Let("out".into(), id("pfoo")));
+                prog.push(s1.clone());
+                out.push(("export-product/1/locals-named-like-exports".to_string(), prog));
+            }
             for (i2, (_n2, s2)) in forms.iter().enumerate() {
                 if tier == Tier::Quick && (i2 + n1.len()) % 2 != 0 && !matches!(s2, Stmt::Export(_, ExportOpt::Spread)) {
                     continue;
@@ -1006,7 +1015,7 @@ pub fn run(args: &[String]) {
     cov.insert("distinct_nontrivial".into(), json!(ok));
     cov.insert(
         "rule".into(),
-        json!("programs = fixed prefix binding every kind of value the name-inference rules distinguish (explicit imports by path / inline type / `as`, an instance from `new`, accesses, named accesses, a let alias) + one `new t:target {..}` whose argument list is the product of per-import supply modes (omitted, inferred via each bound name, named by identifier, named by string, mismatching) x spreads x `...` x argument order, + every export form, + single-fault variants, + nested `new`; each program is evaluated by the reference evaluator (LANGUAGE.md) and by wac (parse, resolve, encode); outcome class must agree and for well-formed programs the E2 reading of the embedded encoding (instantiations with per-name argument provenance, exports, explicit imports) must equal the evaluator's composition; export product: 15 source expressions (accesses, last-segment and named accesses, chained access, imports by path / renamed / inline / function, let aliases, instances, parenthesised) x 6 export options (plain, `as` id, `as` string, `as` a name the target exports, `as` a name that is also an import, spread), singly on two instantiations and in ordered pairs (quick: half of the non-spread second statements); access product: 9 bases x 15 accessors (plain, last-segment, absent, named with / without version, chained, parenthesised) bound by let and exported plainly and under a fresh name"),
+        json!("programs = fixed prefix binding every kind of value the name-inference rules distinguish (explicit imports by path / inline type / `as`, an instance from `new`, accesses, named accesses, a let alias) + one `new t:target {..}` whose argument list is the product of per-import supply modes (omitted, inferred via each bound name, named by identifier, named by string, mismatching) x spreads x `...` x argument order, + every export form, + single-fault variants, + nested `new`; each program is evaluated by the reference evaluator (LANGUAGE.md) and by wac (parse, resolve, encode); outcome class must agree and for well-formed programs the E2 reading of the embedded encoding (instantiations with per-name argument provenance, exports, explicit imports) must equal the evaluator's composition; export product: 15 source expressions (accesses, last-segment and named accesses, chained access, imports by path / renamed / inline / function, let aliases, instances, parenthesised) x 6 export options (plain, `as` id, `as` string, `as` a name the target exports, `as` a name that is also an import, spread), singly on two instantiations (and once more with local names equal to export names of the target) and in ordered pairs (quick: half of the non-spread second statements); access product: 9 bases x 15 accessors (plain, last-segment, absent, named with / without version, chained, parenthesised) bound by let and exported plainly and under a fresh name"),
     );
     ctx.finish(
         cov,
